@@ -74,6 +74,9 @@ def main() -> int:
         "version": 1,
         "setup_cmd": "/venv/bin/pip install --no-index --find-links "
                      "/opt/veriftools/wheels hypothesis >/dev/null 2>&1; "
+                     "/venv/bin/pip install --no-index --find-links "
+                     "/opt/veriftools/wheels --target .deps atheris "
+                     ">/dev/null 2>&1; "
                      "/venv/bin/python -c 'import hypothesis, numba, numpy'",
         "hooks": {
             "guard": "THOMASWEISE_MOPTIPYAPPS_VERIF",
@@ -92,7 +95,9 @@ def main() -> int:
             "name": "vf",
             "path": "vf/",
             "serves_properties": [c["property_id"] for c in checks],
-            "kind_free_text": "Hypothesis-driven property-based testing "
+            "kind_free_text": "Hypothesis-driven property-based testing and "
+                              "atheris/libFuzzer coverage-guided fuzzing of "
+                              "the text parsers "
                               "(strategies, rule-based state machines, "
                               "target()), exhaustive enumeration of small "
                               "finite sub-domains, independent Python oracles; "
